@@ -914,3 +914,82 @@ func init() {
 			return obs
 		}})
 }
+
+func init() {
+	register(&Rule{ID: "FMT.prefix-gap-assigned", Floor: 2,
+		Doc: "applyPrefixNewlines — which gives a prefix form (quote, #', #^) the newline/blank-line gap measured by its prefix token — STORES Meta.NewlineBefore and Meta.BlankLinesBefore on every path after it obtained the node's metadata: the values tokenLVal left there come from the operand's last token, so a path that only ever sets them to true (or skips them) lets a closing bracket on its own line inside the operand move the whole form to a new line, one pass later for the longhand spelling (Format is then not idempotent)",
+		Run: func(c *Ctx) []Obligation {
+			fn, fd, pkg := c.LookupFunc("parser/rdparser.(*Parser).applyPrefixNewlines")
+			nb := c.LookupField("internal/fmtmeta.Meta.NewlineBefore")
+			bl := c.LookupField("internal/fmtmeta.Meta.BlankLinesBefore")
+			if fn == nil || nb == nil || bl == nil {
+				return []Obligation{anchorMissing("FMT.prefix-gap-assigned", "applyPrefixNewlines / Meta.NewlineBefore / Meta.BlankLinesBefore")}
+			}
+			u := FuncUnit{fn, fd, pkg}
+			info := pkg.TypesInfo
+			fc := c.cfgOf(u, nil)
+			// start: the block that obtains the metadata (EnsureMeta / Meta call assigned to a local)
+			var start *cfg.Block
+			for _, b := range fc.G.Blocks {
+				for _, n := range b.Nodes {
+					if as, ok := n.(*ast.AssignStmt); ok && len(as.Rhs) == 1 {
+						if ce, ok := ast.Unparen(as.Rhs[0]).(*ast.CallExpr); ok {
+							if se, ok := ast.Unparen(ce.Fun).(*ast.SelectorExpr); ok && (se.Sel.Name == "EnsureMeta" || se.Sel.Name == "Meta") {
+								start = b
+							}
+						}
+					}
+				}
+			}
+			if start == nil {
+				return []Obligation{mkOb(c, "FMT.prefix-gap-assigned", u, "metadata obtained", fd, Undecided, "no EnsureMeta call found", false)}
+			}
+			var obs []Obligation
+			for _, fld := range []*types.Var{nb, bl} {
+				blocked := map[*cfg.Block]bool{}
+				for _, b := range fc.G.Blocks {
+					for _, n := range b.Nodes {
+						if as, ok := n.(*ast.AssignStmt); ok {
+							for _, l := range as.Lhs {
+								if FieldOfSelector(info, l) == fld {
+									blocked[b] = true
+								}
+							}
+						}
+					}
+				}
+				// an unconditional store in the start block itself settles it
+				escapes := false
+				if !blocked[start] {
+					seen := map[*cfg.Block]bool{}
+					var dfs func(b *cfg.Block)
+					dfs = func(b *cfg.Block) {
+						if escapes || seen[b] || blocked[b] {
+							return
+						}
+						seen[b] = true
+						if len(b.Succs) == 0 {
+							escapes = true
+							return
+						}
+						for _, s := range b.Succs {
+							dfs(s)
+						}
+					}
+					for _, s := range start.Succs {
+						dfs(s)
+					}
+					if len(start.Succs) == 0 {
+						escapes = true
+					}
+				}
+				construct := "store " + fld.Name() + " on every path"
+				if !escapes {
+					obs = append(obs, mkOb(c, "FMT.prefix-gap-assigned", u, construct, fd, Proved, "every path from the metadata to the end of the function assigns the field", true))
+				} else {
+					obs = append(obs, mkOb(c, "FMT.prefix-gap-assigned", u, construct, fd, Violated, "a path leaves "+fld.Name()+" as tokenLVal recorded it (from the operand's last token): \"(f (lisp:expr (a\\n)))\" formats to \"(f #^(a\\n        ))\" and then, on the next pass, to \"(f\\n  #^(a ...))\"", true))
+				}
+			}
+			return obs
+		}})
+}
